@@ -19,18 +19,19 @@ Proof. intros (-> & _). apply ids_rule_map. Qed.
 
 (* relations: 0 = e0/2, 1 = u0/1, 2 = u1/1, 3 = d0/2 *)
 
-(* (2) a condition attached to a clause:  macro m0($p0: ident) { e0($p0, y) if $p0 < y }
+(* a condition attached to a clause (finding attached_condition_not_renamed, fixed by 931a20f: the renaming pass now
+   visits the conditions attached to a clause):  macro m0($p0: ident) { e0($p0, y) if $p0 < y }
        d0(a, y) <-- u1(y), u0(a), m0!(a);
-   expands to  u1(y), u0(a), e0(a, __y_) if a < y : one variable of the reference expansion under two names *)
+   expands to  u1(y), u0(a), e0(a, __y_) if a < __y_ *)
 Definition M_att : list mdef := [mkDef 0 [(0, true)] [IClause 0 [TV (VPar 0); TV (ml 0 "y")] [CIf 0 [VPar 0; ml 0 "y"]]]].
 Definition r_att : rule := mkRule [HClause 3 [TV (cs "a"); TV (cs "y")]] [IClause 2 [TV (cs "y")] []; IClause 1 [TV (cs "a")] []; IInv 0 [TV (cs "a")]].
-Lemma refuted_attached_condition :
-  forallb wf_def_ids M_att = true /\ forallb wf_def_bound M_att = true /\ forallb (wf_def_rank (fun m => m)) M_att = true
-  /\ forallb (wf_head_def []) M_att = true /\ wf_rule [] r_att = true /\ not_hygienic M_att r_att.
-Proof.
-  repeat (split; [reflexivity|]). eexists _, _. split; [vm_compute; reflexivity|]. split; [vm_compute; reflexivity|].
-  intros (phi & H). apply image_ids in H. apply (f_equal (map iname)) in H. vm_compute in H. injection H. intros. congruence.
-Qed.
+Lemma attached_condition_renamed :
+  wf_macros (fun m => m) [] M_att = true /\ wf_rule [] r_att = true
+  /\ expand_rule M_att r_att =
+      OK (mkRule [HClause 3 [TV (cs "a"); TV (cs "y")]]
+                 [IClause 2 [TV (cs "y")] []; IClause 1 [TV (cs "a")] [];
+                  IClause 0 [TV (cs "a"); TV (VId (mkId "__y_" (OMac 0) 0))] [CIf 0 [cs "a"; VId (mkId "__y_" (OMac 0) 0)]]]).
+Proof. repeat split; vm_compute; reflexivity. Qed.
 
 (* user identifier spelled like a generated name:  macro m0($p0: ident) { e0($p0, y), u0(y) }
        d0(a, __y_) <-- u1(__y_), m0!(a);      the rule's __y_ and the macro's y get the same name *)
@@ -60,12 +61,12 @@ Proof.
   destruct E as [_ E]. discriminate.
 Qed.
 
-(* (3) an identifier that the body does not bind:  macro m0($p0: ident) { e0($p0, w), if w < y }
+(* (2) an identifier that the body does not bind:  macro m0($p0: ident) { e0($p0, w), if w < y }
        d0(a, y) <-- u1(y), m0!(a);       y is not renamed and is the rule's y *)
 Definition M_free : list mdef := [mkDef 0 [(0, true)] [IClause 0 [TV (VPar 0); TV (ml 0 "w")] []; ICond (CIf 0 [ml 0 "w"; ml 0 "y"])]].
 Definition r_free : rule := mkRule [HClause 3 [TV (cs "a"); TV (cs "y")]] [IClause 2 [TV (cs "y")] []; IInv 0 [TV (cs "a")]].
 Lemma refuted_unbound_identifier_captured :
-  forallb wf_def_ids M_free = true /\ forallb wf_def_noatt M_free = true /\ forallb (wf_def_rank (fun m => m)) M_free = true
+  forallb wf_def_ids M_free = true /\ forallb (wf_def_rank (fun m => m)) M_free = true
   /\ forallb (wf_head_def []) M_free = true /\ wf_rule [] r_free = true /\ not_hygienic M_free r_free.
 Proof.
   repeat (split; [reflexivity|]). eexists _, _. split; [vm_compute; reflexivity|]. split; [vm_compute; reflexivity|].
@@ -81,7 +82,7 @@ Qed.
 Definition M_twice : list mdef := [mkDef 0 [(0, true)] [IClause 0 [TV (ml 0 "x"); TV (ml 0 "__x_")] []; IClause 1 [TV (VPar 0)] []]].
 Definition r_twice : rule := mkRule [HClause 1 [TV (cs "a")]] [IInv 0 [TV (cs "a")]].
 Lemma refuted_renamed_twice :
-  forallb wf_def_noatt M_twice = true /\ forallb wf_def_bound M_twice = true /\ forallb (wf_def_rank (fun m => m)) M_twice = true
+  forallb wf_def_bound M_twice = true /\ forallb (wf_def_rank (fun m => m)) M_twice = true
   /\ wf_rule [] r_twice = true /\ not_hygienic M_twice r_twice.
 Proof.
   repeat (split; [reflexivity|]). eexists _, _. split; [vm_compute; reflexivity|]. split; [vm_compute; reflexivity|].
@@ -95,7 +96,7 @@ Qed.
 (* ---------------------------------------------------------------- the hypotheses are satisfiable: nesting, a macro invoked twice,
    the same spelling z at the call site, in the outer and in the inner macro, a disjunction, a head macro with a nested one *)
 Definition M_ex : list mdef :=
-  [ mkDef 0 [(0, true)] [IClause 0 [TV (VPar 0); TV (ml 0 "z")] []; IClause 1 [TV (ml 0 "z")] []];                      (* inner *)
+  [ mkDef 0 [(0, true)] [IClause 0 [TV (VPar 0); TV (ml 0 "z")] [CIf 1 [VPar 0; ml 0 "z"]]; IClause 1 [TV (ml 0 "z")] []];   (* inner, with an attached condition *)
     mkDef 1 [(0, true); (1, false)] [IClause 0 [TV (VPar 0); TV (ml 1 "z")] []; IInv 0 [TV (ml 1 "z")];
                                       IDisj [[IClause 0 [TV (ml 1 "z"); TV (VPar 1)] []]; [IInv 0 [TV (VPar 0)]]]];       (* outer *)
     mkDef 2 [(0, true)] [IClause 1 [TV (VPar 0)] []];                                                                     (* head, inner *)
@@ -104,7 +105,7 @@ Definition r_ex : rule :=
   mkRule [HInv 3 [TV (cs "z"); TF 0 [cs "a"]]]
          [IClause 2 [TV (cs "z")] []; IInv 1 [TV (cs "a"); TC 3]; IInv 0 [TV (cs "z")]; IInv 1 [TV (cs "z"); TV (cs "a")]].
 Lemma example_wf : wf_macros (fun m => m) [2; 3] M_ex = true /\ wf_rule [2; 3] r_ex = true
-  /\ exists r', expand_rule M_ex r_ex = OK r' /\ List.length (ids_rule r') = 26.
+  /\ exists r', expand_rule M_ex r_ex = OK r' /\ List.length (ids_rule r') = 36.
 Proof. split; [reflexivity|]. split; [reflexivity|]. eexists. split; vm_compute; reflexivity. Qed.
 
 (* a recursive table with well-formed invocations: mutual recursion through a disjunction, reached through a third macro *)
